@@ -57,14 +57,7 @@ def _doubled_note_patterns(ctx, mods, r, n):
     unison): admitted by the validator, absent from the shared generator."""
     from .. import tasks
     for _ in range(n):
-        inp = tasks.gen_pattern(r)
-        for side in ("ref", "est"):
-            if r.random() < 0.7:
-                for pat in inp[side]:
-                    for occ in pat:
-                        if occ and r.random() < 0.6:
-                            for _k in range(r.randrange(1, len(occ) + 1)):
-                                occ.append(occ[r.randrange(len(occ))])
+        inp = tasks.gen_pattern_doubled(r)
         workloads.run_calls(ctx, mods, tasks.calls_pattern(inp, r))
         a, kw = tasks.eval_pattern(inp, r)
         workloads.run_calls(ctx, mods, [("pattern.evaluate", a, kw)])
